@@ -1045,6 +1045,8 @@ class PolarsModel(data_algebra.data_model.DataModel):
                     [c_a for c_a, c_b in zip(op.on_a, op.on_b) if c_a == c_b]
                 )
             orphan_keys = [c for c in op.on_b if c not in set(op.on_a)]
+            if how == "outer":
+                orphan_keys = []  # a full join keeps the right key columns itself
             input_right = inputs[1]
             if len(orphan_keys) > 0:
                 input_right = input_right.with_columns(
